@@ -401,3 +401,154 @@ def negative_slice_rule(ctx, rule: str, module_suffixes: Sequence[str]) -> int:
                                       f"`{ast.unparse(node_ast)[:60]}`: when `{show(bound.operand)[:30]}` is 0 the bound -0 selects nothing (instead of everything up to the end), "
                                       "and nothing here establishes that it is at least 1 (use `-n or None`)", where=f.where(node_ast))
     return n_sites
+
+
+# ------------------------------------------------------------------ class-level mutable state
+def class_state_rule(ctx, rule: str, class_names: Sequence[str], what: str) -> None:
+    """No mutable container declared on the class (shared by all instances) is filled by the methods of the class:
+    results computed for one object (its `what`) would be returned for another."""
+    MUT = {"append", "extend", "insert", "pop", "clear", "update", "setdefault", "__setitem__", "add"}
+    n = 0
+    for cname in class_names:
+        cls = ctx.prog.class_by_name(cname)
+        if cls is None:
+            ctx.rep.inconclusive(rule, cname, "class not found")
+            continue
+        n += 1
+        shared = {}
+        for k in ctx.prog.mro(cls):
+            if not isinstance(k, ClassInfo):
+                continue
+            for name_, v in k.class_assigns.items():
+                if isinstance(v, (ast.Dict, ast.List, ast.Set, ast.DictComp, ast.ListComp, ast.SetComp)) or (isinstance(v, ast.Call) and call_fname(v) in ("dict", "list", "set", "defaultdict", "OrderedDict")):
+                    shared.setdefault(name_, (k, v))
+        hits = []
+        for m in cls.methods.values():
+            ctx.rep.touch(m)
+            selfn = m.params[0] if m.params else None
+            for sub in own_walk(m.node):
+                root = None
+                if isinstance(sub, ast.Subscript) and isinstance(sub.ctx, (ast.Store, ast.Del)):
+                    root = sub.value
+                elif isinstance(sub, ast.Call) and isinstance(sub.func, ast.Attribute) and sub.func.attr in MUT:
+                    root = sub.func.value
+                while isinstance(root, ast.Subscript):
+                    root = root.value
+                if isinstance(root, ast.Attribute) and root.attr in shared and (is_name(root.value, selfn) or is_name(root.value, cname) or is_name(root.value, "cls")
+                                                                             or (isinstance(root.value, ast.Call) and call_fname(root.value) == "type")):
+                    # an instance attribute of the same name assigned in a constructor shadows the class attribute
+                    shadow = False
+                    for k in ctx.prog.mro(cls):
+                        init = k.methods.get("__init__") if isinstance(k, ClassInfo) else None
+                        if init is not None and any(isinstance(x, ast.Attribute) and x.attr == root.attr and isinstance(x.ctx, ast.Store) and is_name(x.value, init.params[0]) for x in own_walk(init.node)):
+                            shadow = True
+                    if not shadow:
+                        hits.append((m, sub, root.attr))
+        for m, sub, attr in hits:
+            ctx.rep.refuted(rule, f"{m.qualname}/{attr}", f"`{shared[attr][0].name}.{attr}` is a container declared on the class and filled by {m.name}: it is shared by all {cname} objects, so what was "
+                            f"computed for one object ({what}) is returned for another", where=m.where(sub))
+        if not hits:
+            ctx.rep.holds(rule, cname, f"no class-level container is mutated by the methods of {cname} ({len(shared)} class-level containers)")
+    ctx.rep.floor(rule, "classes examined for shared state", n, len(class_names))
+
+
+# ------------------------------------------------------------------ numpy buffers that take their dtype from the first value
+def _value_kind(fv: FV, e: ast.AST, at: int, stringish: Sequence[str], depth: int = 0) -> Optional[str]:
+    """'int' | 'float' | 'str' | None (unknown) for the value an expression produces; conditionally assigned names are
+    followed through all their definitions ('int' wins: one integer path is enough to get an integer buffer)."""
+    if depth > 6:
+        return None
+    if isinstance(e, ast.Constant):
+        if isinstance(e.value, bool):
+            return None
+        return "int" if isinstance(e.value, int) else "float" if isinstance(e.value, float) else "str" if isinstance(e.value, str) else None
+    if isinstance(e, ast.JoinedStr):
+        return "str"
+    if isinstance(e, ast.Call):
+        fn = call_fname(e)
+        if fn in ("ceil", "floor", "trunc") and isinstance(e.func, ast.Attribute) and isinstance(e.func.value, ast.Name) and e.func.value.id == "math":
+            return "int"
+        if fn in ("int", "len", "round") and isinstance(e.func, ast.Name) and (fn != "round" or len(e.args) == 1):
+            return "int"
+        if fn == "float":
+            return "float"
+        if fn in ("str", "format", "join"):
+            return "str"
+        if fn in ("min", "max") and e.args:
+            kinds = [_value_kind(fv, a, at, stringish, depth + 1) for a in e.args]
+            if "float" in kinds:
+                return "float"  # min/max return one of their arguments: a float argument can be the result
+            return kinds[0] if kinds and all(k == kinds[0] for k in kinds) else None
+        return None
+    if isinstance(e, ast.BinOp):
+        if isinstance(e.op, ast.Div):
+            return "float"
+        a, b = _value_kind(fv, e.left, at, stringish, depth + 1), _value_kind(fv, e.right, at, stringish, depth + 1)
+        if "str" in (a, b):
+            return "str"
+        if "float" in (a, b):
+            return "float"
+        return "int" if a == b == "int" else None
+    if isinstance(e, ast.Subscript):
+        base = e.value
+        t = fv.res.resolve(base, at)
+        if any(isinstance(x, ast.Name) and x.id in stringish for x in ast.walk(t)):
+            return "str"
+        return None
+    if isinstance(e, ast.Name):
+        if e.id in stringish:
+            return "str"
+        defs = sorted(fv.cfg.reaching()[at].get(e.id, ()))
+        kinds = []
+        for d in defs:
+            dn = fv.cfg.nodes[d]
+            if dn.kind == "stmt" and isinstance(dn.ast, ast.Assign) and len(dn.ast.targets) == 1 and isinstance(dn.ast.targets[0], ast.Name):
+                kinds.append(_value_kind(fv, dn.ast.value, d, stringish, depth + 1))
+            else:
+                kinds.append(None)
+        if "int" in kinds:
+            return "int"
+        if "str" in kinds:
+            return "str"
+        return kinds[0] if kinds and all(k == kinds[0] for k in kinds) else None
+    return None
+
+
+def buffer_dtype_rule(ctx, rule: str, funcs: Sequence[str], stringish: Sequence[str] = ()) -> int:
+    """numpy.full(shape, v) / numpy.char.add(..) / numpy.repeat(v, n) create an array whose dtype is that of the first value:
+    an integer or a fixed-width string array.  Storing other values into it afterwards silently truncates them (fractions
+    are cut off, longer strings are cut to the width of the first one)."""
+    n_sites = 0
+    for short in funcs:
+        f = ctx.prog.func(short)
+        if f is None:
+            continue
+        fv = ctx.fv(f)
+        for n in fv.cfg.nodes:
+            if not (n.kind == "stmt" and isinstance(n.ast, ast.Assign) and len(n.ast.targets) == 1 and isinstance(n.ast.targets[0], ast.Name) and isinstance(n.ast.value, ast.Call)):
+                continue
+            call = n.ast.value
+            fn = call_fname(call)
+            dotted = call_dotted(call)
+            explicit = any(k.arg == "dtype" for k in call.keywords)
+            kind = None
+            if fn == "full" and len(call.args) >= 2 and not explicit:
+                kind = _value_kind(fv, call.args[1], n.id, stringish)
+            elif fn == "repeat" and call.args and not explicit and dotted.split(".")[0] in NUMPY:
+                kind = _value_kind(fv, call.args[0], n.id, stringish)
+            elif ".char." in "." + dotted + "." or dotted.split(".")[-2:-1] == ["char"]:
+                kind = "str"
+            if kind not in ("int", "str"):
+                continue
+            buf = n.ast.targets[0].id
+            stores = [m for m in fv.cfg.nodes if m.kind == "stmt" and isinstance(m.ast, (ast.Assign, ast.AugAssign)) and isinstance(m.ast.targets[0] if isinstance(m.ast, ast.Assign) else m.ast.target, ast.Subscript)
+                      and is_name((m.ast.targets[0] if isinstance(m.ast, ast.Assign) else m.ast.target).value, buf) and fv.cfg.reaches(n.id, m.id)]
+            for m in stores:
+                vk = _value_kind(fv, m.ast.value, m.id, stringish)
+                if kind == "int" and vk == "int":
+                    continue
+                n_sites += 1
+                ctx.rep.touch(f)
+                what = "an integer array: fractional values stored into it are cut off" if kind == "int" else "a fixed-width string array (as wide as the first value): longer strings stored into it are cut off"
+                ctx.rep.refuted(rule, f"{f.qualname}/{buf}", f"`{stmt_key(n.ast)[:60]}` creates {what} - and `{stmt_key(m.ast)[:50]}` stores other values into it", where=f.where(m.ast))
+    return n_sites
